@@ -42,6 +42,7 @@ void K_postinc2(it2 *it) { (*it)++; }
 int K_eq3(const it3 *it, const it3 *other) { return *it == *other; }
 int K_ne3(const it3 *it, const it3 *other) { return *it != *other; }
 size_t K_current3(const it3 *it) { return it->current(); }
+size_t K_current2(const it2 *it) { return it->current(); }
 
 // array3D/for_each.h ---------------------------------------------------------------------------
 size_t K_longProduct(const vec3i *dims) { return longProduct(*dims); }
